@@ -106,6 +106,7 @@ def name_class(n):
 class NBox(object):
     def __init__(self, ctx):
         self.ctx = ctx
+        self.rng = ctx.rng
         self.mount = tempfile.mkdtemp(prefix='nm_', dir=ctx.tmp)
         self.sess = Sess(mount=self.mount, devices={b'C': self.mount, b'Z': None}, current_device=b'C', peek_values={})
         self.sess.impl.queues.tick = 0
@@ -154,11 +155,19 @@ class NBox(object):
         if self.need_pre:
             self.pre = self.listing()
 
+    def spelled(self, n):
+        """The same file given with a path that denotes the current (= root) directory: the name rules apply to the
+        last path element only (a dot in the directory part must not count as an extension)."""
+        if n and not any(c in n for c in b'\\/:') and self.rng.random() < 0.35:
+            return self.rng.choice([b'.\\', b'\\', b'C:.\\', b'C:\\', b'..\\', b'.\\.\\']) + n
+        return n
+
     def create(self, n, kind):
         self.begin()
         s = self.sess
         self.cid += 1
         cid = self.cid
+        n0, n = n, self.spelled(n)
         if kind == 'data':
             s.s.set_variable('P$', n)
             s.s.set_variable('T$', b'1 C!=%d' % cid)
@@ -168,12 +177,13 @@ class NBox(object):
             s.ex('1 C!=%d' % cid)
             s.s.set_variable('P$', n)
             r = s.ex('SAVE P$,A', budget=50)
-        return self.record({'op': 'create', 'kind': kind, 'n': list(n), 'cid': cid}, r)
+        return self.record({'op': 'create', 'kind': kind, 'n': list(n0), 'cid': cid}, r, {'spelled': n})
 
     def open(self, n, kind, via=None):
         self.begin()
         s = self.sess
         got = -1
+        n0, n = n, self.spelled(n)
         if kind == 'data':
             s.s.set_variable('P$', n)
             r = s.ex('OPEN P$ FOR INPUT AS 1:LINE INPUT#1,L$:CLOSE 1', budget=50)
@@ -186,7 +196,7 @@ class NBox(object):
             r = s.ex('RUN P$', budget=50)
             if r[0] == 'ok':
                 got = int(s.s.get_variable('C!'))
-        return self.record({'op': 'open', 'kind': kind, 'n': list(n), 'got': got}, r, {'via': via})
+        return self.record({'op': 'open', 'kind': kind, 'n': list(n0), 'got': got}, r, {'via': via, 'spelled': n})
 
     def files(self, n):
         self.begin()
